@@ -110,6 +110,14 @@ Definition py_next_default {A} (l : list A) (d : A) : A * list A := match l with
 Definition py_read_short (avail : bytes) (n : Z) (k : nat) : bytes * bytes :=
   let m := Nat.min (Z.to_nat n) k in (firstn m avail, skipn m avail).
 
+(* fd.read(n) on a source that may return short reads, read after read: sched lists the most each successive read returns
+   (an exhausted schedule means full reads); n < 0 reads everything (io semantics); a short read returns at least one
+   byte unless the source is exhausted *)
+Definition py_read_sched (avail : bytes) (n : Z) (sched : list nat) : bytes * bytes * list nat :=
+  let k := match sched with k :: _ => k | [] => length avail end in
+  let m := if n <? 0 then Nat.max 1 k else Nat.min (Z.to_nat n) (Nat.max 1 k) in
+  (firstn m avail, skipn m avail, tl sched).
+
 Definition py_unwrap {A} (o : option A) : res A := match o with Some v => Ok v | None => Err EOther end.
 
 (* while c: body  on explicit fuel: Err EFuel when the fuel runs out while the condition still holds;
